@@ -111,6 +111,13 @@ pub fn parallel_parse(
     // verification seam (off by default): scheduler-owned threads and channel, walker thread count
     #[cfg(typeshare_verif)]
     use verif_rt::{channel::bounded, thread};
+    // (as above, for whatever else may coordinate the walker threads and the collector)
+    #[cfg(typeshare_verif)]
+    #[allow(unused_imports)]
+    use verif_rt::{
+        shim as std,
+        sync::{atomic, mpsc, Arc, Barrier, Condvar, Mutex, Once, RwLock},
+    };
     #[cfg(typeshare_verif)]
     let walker_builder = {
         let mut walker_builder = walker_builder;
